@@ -23,10 +23,11 @@ func runC07(p *Program, r *Report) {
 	for _, m := range []struct {
 		r string
 		n int
-	}{{"C07.R1", 10}, {"C07.R2", 2}, {"C07.R3", 8}, {"C07.R4", 1}} {
+	}{{"C07.R1", 10}, {"C07.R2", 2}, {"C07.R3", 8}, {"C07.R4", 1}, {"C07.R5", 5}} {
 		r.Min(m.r, m.n)
 	}
 	checkAliasReset(p, r, "C07.R4")
+	checkSetNameSpacePairing(p, r, "C07.R5")
 	tsp := p.SSAPkg("template")
 	pv := NewProv(p)
 	pv.NoInline = true
